@@ -109,6 +109,7 @@ func factsOut() string {
 
 func facts(f *hc.Facts) {
 	f.Const("preallocateLimit", "bin", "PreallocateLimit")
+	f.Const("maxNestingDepth", "bin", "MaxNestingDepth")
 	s, err := buildSchema(f.Repo)
 	if err != nil {
 		f.Missing("schemaCtors", "translator failed: "+err.Error())
@@ -137,6 +138,13 @@ func facts(f *hc.Facts) {
 	f.Nat("untranslated", nBad, "constructors whose generated code the translator did not understand / found inconsistent: "+strings.Join(badNames, "; "))
 	f.Nat("genericCtors", nGeneric, "constructors with a generic bin.Object field")
 	f.Nat("genericUnchecked", unchecked, "bin.Object fields that Encode/Decode dereference without a nil check")
+	unguarded := 0
+	for _, i := range s.Ifaces {
+		if !i.Guarded {
+			unguarded++
+		}
+	}
+	f.Nat("ifacesUnguarded", unguarded, "generated DecodeXxx without `buf.EnterObject()` before the switch and a deferred `buf.LeaveObject()`")
 	f.Nat("doubleVectors", s.DoubleVectors, "fields decoded by the generator's double-vector loop")
 	f.Nat("vectorMakes", makes, "make( calls in DecodeBare bodies")
 	f.Nat("vectorMakesCapped", capped, "... of the form `if headerLen > 0 { x = make(T, 0, headerLen % bin.PreallocateLimit) }`")
@@ -575,8 +583,55 @@ func run(c *hc.Ctx) error {
 			}
 		}
 	}
+	// --- nesting budget (bin.MaxNestingDepth): self-nesting constructors just below / at / above the limit
+	for k, nc := range cands {
+		if k >= c.N(2, 6) {
+			break
+		}
+		for _, depth := range []int{1, 2, 998, 999, 1000, 1001, 1002, 1500} {
+			data := make([]byte, 0, 4*depth+4)
+			for i := 0; i < depth; i++ {
+				data = append(data, byte(nc.outer.ID), byte(nc.outer.ID>>8), byte(nc.outer.ID>>16), byte(nc.outer.ID>>24))
+			}
+			data = append(data, byte(nc.inner.ID), byte(nc.inner.ID>>8), byte(nc.inner.ID>>16), byte(nc.inner.ID>>24))
+			name := fmt.Sprintf("%s.%s x %d", nc.outer.Pkg, nc.outer.GoName, depth)
+			obj := w.newObj[nc.outer.Idx]()
+			rest, derr, p := decodeSafe(obj, data)
+			line := fmt.Sprintf("dec C%d %s", nc.outer.Idx, hc.Hex(data))
+			c.Eval(line, true)
+			c.Count("nesting.case")
+			want := ""
+			switch {
+			case p != nil:
+				c.Fail("decode-panic", name, fmt.Sprint(p))
+				continue
+			case derr != nil:
+				want = "err " + errClass(derr)
+				c.Count("nesting." + want)
+			default:
+				want = fmt.Sprintf("ok %s %d same", w.showObj(nc.outer, obj), rest)
+				c.Count("nesting.ok")
+			}
+			q = append(q, pending{line, name + " " + line, want})
+			if ifc := ifaceOf[nc.outer.Idx]; ifc != nil {
+				got, rest2, derr2, p3 := decodeIfaceSafe(ifaceDecoders[ifc.Pkg+"."+ifc.Func], data)
+				iline := fmt.Sprintf("dec B%d %s", ifc.Idx, hc.Hex(data))
+				switch {
+				case p3 != nil:
+					c.Fail("decode-panic", name+" via Decode"+ifc.Func, fmt.Sprint(p3))
+					continue
+				case derr2 != nil:
+					want = "err " + errClass(derr2)
+				default:
+					want = fmt.Sprintf("ok %s %d same", w.showObj(w.byType[reflect.TypeOf(got).Elem()], got), rest2)
+				}
+				c.Eval(iline, true)
+				q = append(q, pending{iline, name + " via Decode" + ifc.Func + " " + iline, want})
+			}
+		}
+	}
 	c.Res.Rule = "per constructor reachable from the three TypesConstructorMaps: random TL-consistent values built by reflection (nesting depth ≤ 4, node budget 5..400, optional groups on/off, vectors 0..3 and 1023..2050, strings at 0/253/254/255/65536/2^20 boundaries, int32/int64 boundaries, NaN patterns); non-trivial = constructor has at least one field; then mutated encodings (truncation, bit flips, interesting words, noise; all non-trivial); then the end-of-input stream: values whose strings/bytes are 253..1025 bytes long (all residues mod 4) and vectors of 253..256 elements, cut at every strict prefix within the last 16 bytes, within -9..+4 bytes of the end of each long string, at its length header and at random points, decoded from buffers with cap == len through the constructor's Decode and the interface's DecodeXxx; distinct = distinct request line"
-	c.PartialNote("Go stack consumption of deeply nested values cannot be exhibited by the model (see the sub-process crash search)")
+	c.PartialNote("Go stack consumption cannot be exhibited by the model; the model has the nesting budget of bin.Buffer (tl_nesting_bounded), and the sub-process crash search decodes the deepest nesting a payload can carry")
 	c.PartialNote("values are TL values: Go structs that are not the image of one (int outside int32, a true-flag bool that disagrees with its flag bit) are outside the quantifier")
 	lines := make([]string, len(q))
 	for i := range q {
@@ -587,7 +642,9 @@ func run(c *hc.Ctx) error {
 		return err
 	}
 	for i, o := range outs {
-		if strings.HasPrefix(o, "err other:") {
+		if o == "err other:depth" {
+			o = "err depth"
+		} else if strings.HasPrefix(o, "err other:") {
 			o = "err other"
 		}
 		if c.Compare(q[i].input, q[i].want, o) {
